@@ -11,6 +11,7 @@ import shim  # noqa: F401
 import translate_c04_rules as TR
 import c04_lattice as LT
 import c04_calls as CG
+import c04_build as CB
 
 TRUSTED_BASE = [
     "Coq 8.16.1 kernel + vm_compute",
@@ -111,6 +112,12 @@ def run(ctx):
                     mismatches=[dict(oracle_fail=False, what=f"translator fails closed (unknown type-hint form / unmodelled registration): {e}")])
     mismatches, findings, samples = [], [], []
     extra = {}
+    if CB.alt_dir():
+        # a tree other than /repo: the table and the proofs are built privately (see c04_build.py)
+        if not os.path.exists(TR.OUT):
+            TR.main()
+        mismatches += CB.theorem_mismatches("C04")
+        extra["private_build"] = CB.alt_dir()
     # 0. the table `make` compiled is the table of this tree
     disk = open(TR.OUT).read() if os.path.exists(TR.OUT) else ""
     if disk != TR.coq_text(T):
@@ -139,7 +146,7 @@ def run(ctx):
         ncalls += len(exp)
     extra["live_seconds"] = round(time.time() - t0, 1)
     t0 = time.time()
-    res = LT.coqc_many_consistent([(j["name"], shard_text(T, j, tag, j["expected"])) for j in jobs], timeout=900)
+    res = CB.coqc_many([(j["name"], shard_text(T, j, tag, j["expected"])) for j in jobs], timeout=900)
     extra["coq_seconds"] = round(time.time() - t0, 1)
     for job, (rc, out) in zip(jobs, res):
         p = parse_coq(out) if rc == 0 else None
